@@ -85,6 +85,11 @@ Fixpoint trace (ops : list op) (s : sm) : list sm :=
 
 Definition init (pd : S) : sm := mkSM [mk3 k0 k0 pd] [mk3 k0 k0 pd].
 
+(* F0 / Z0 as read by the probes: centre state *)
+Definition probe_ok (ops : list op) (s0 : sm) (f0 z0 : S) : bool :=
+  let s := run ops s0 in
+  keqb (fp (centre (st s))) f0 && keqb (fz (centre (st s))) z0.
+
 Fixpoint leqb (x y : list triple) : bool :=
   match x, y with
   | [], [] => true
@@ -108,6 +113,6 @@ End Ops.
 Arguments OScalar {S}. Arguments OMatrix {S}. Arguments OShift {S}. Arguments OSpoil {S}.
 Arguments OReset {S}. Arguments OPD {S}. Arguments OWait {S}.
 Arguments apply {S}. Arguments run {S}. Arguments trace {S}. Arguments init {S}.
-Arguments sm_eqb {S}. Arguments trace_ok {S}. Arguments all2 {A B}. Arguments shift1d {S}. Arguments apply_shift {S}.
+Arguments sm_eqb {S}. Arguments trace_ok {S}. Arguments probe_ok {S}. Arguments all2 {A B}. Arguments shift1d {S}. Arguments apply_shift {S}.
 Arguments apply_scalar {S}. Arguments apply_matrix {S}. Arguments apply_spoil {S}.
 Arguments apply_reset {S}. Arguments apply_pd {S}.
